@@ -44,3 +44,13 @@ Theorem c04_some_worker_can_finish : forall s0 P g, reachable s0 P g ->
   exists t, 0 <= t < tlen (thr g) /\ gstep g (LFinish t) <> None.
 Proof. intros s0 P g R. exact (some_worker_can_finish g (reachable_inv s0 P g R)). Qed.
 Print Assumptions c04_some_worker_can_finish.
+
+From SLU Require Import SchedWork.
+
+(* the work of ANY run is bounded: at most one hand-out and one completion per panel (DONE is absorbing); every other step is
+   an iteration of a worker's polling loop.  With c04_no_stuck_state this is the termination argument up to OS fairness. *)
+Theorem c04_work_bounded : forall s0 P ls, check_init s0 = true ->
+  Z.of_nat (length (gtaken (ginit s0 P) ls)) <= npanels s0 /\
+  Z.of_nat (length (gfinished (ginit s0 P) ls)) <= npanels s0.
+Proof. exact work_bounded. Qed.
+Print Assumptions c04_work_bounded.
